@@ -234,7 +234,7 @@ pub fn net(cfg: GenCfg) -> BoxedStrategy<NetCfg> {
 
 pub fn scenario(cfg: GenCfg) -> BoxedStrategy<Scenario> {
     let client = (endpoint(cfg), prop::collection::vec(stream(cfg), 1..=cfg.max_streams), prop_oneof![Just(None), (0u32..100).prop_map(Some)])
-        .prop_map(|(endpoint, streams, close_code)| ClientCfg { endpoint, conn: ConnScript { streams, close_code, datagrams: vec![] } });
+        .prop_map(|(endpoint, streams, close_code)| ClientCfg { endpoint, conn: ConnScript { streams, close_code, datagrams: vec![], server_close: None } });
     (any::<u64>(), endpoint(cfg), prop::collection::vec(client, 1..=cfg.max_clients), net(cfg))
         .prop_map(move |(seed, server, clients, net)| Scenario { seed, server, clients, net, cap_ms: cfg.cap_ms, strays: vec![], stateless_reset: false, rebinds: vec![], attacks: vec![], evil: None, tp: None, key_update_after: None })
         .boxed()
@@ -308,7 +308,7 @@ pub fn single_fault_base(shape: u64) -> Scenario {
     Scenario {
         seed: 11 + shape,
         server,
-        clients: vec![ClientCfg { endpoint: client, conn: ConnScript { streams, close_code: Some(0), datagrams: vec![] } }],
+        clients: vec![ClientCfg { endpoint: client, conn: ConnScript { streams, close_code: Some(0), datagrams: vec![], server_close: None } }],
         net: NetCfg::default(),
         cap_ms: 60_000,
         strays: vec![],
